@@ -4,7 +4,9 @@ Necessary conditions only: the separators recorded at tokenisation (at_bol /
 has_space) are printed by print_tokens, recorded for every kind of white
 space, survive copying, and are handed to the tokens that macro expansion
 creates; plus the expansion boundaries (R19.3) and, R19.4, the printer's separation decision evaluated against
-tokenize() itself on a complete table of pairs of token spellings (sa/lib_c19.py).
+tokenize() itself on a complete table of pairs of token spellings (sa/lib_c19.py); R19.5: the pair predicate of the
+printer is asked about the token written immediately before, at every position of the output; R19.6: the clauses of
+C09 (R09.15/R09.18) on the white space around an invocation and of tokens that are merely passed on, re-issued.
 """
 from ..interp import NoReturn, Infeasible, NeedChoice, Ctx, Interp, Obj, Sym, View, Cell, Term, Arr, VarPlace, ElemPlace, _Ref, _Continue, _Break, _Return, is_opaque
 from ..build import AnalysisBroken
@@ -25,9 +27,12 @@ def run(P, rep, tier):
                        'exactly where the token flags say so, every kind of white space (blank, newline, both comment forms) sets a flag, '
                        'copies keep the flags, and tokens created by expansion (first token of a replacement, of a substituted argument, '
                        'stringized and pasted tokens, dynamic-macro tokens) take the flags of the token they stand for. R19.3 records that '
-                       'neither the printer nor the splices protect expansion boundaries. Not decided: that no adjacent pair of spellings fuses.')
+                       'neither the printer nor the splices protect expansion boundaries. R19.5 follows which two tokens the printer\'s pair predicate is asked about '
+                       '(the token being written and the one written just before it, on paths over three abstract tokens); R19.6 re-issues C09\'s rules on whose white space '
+                       'an expansion takes (the macro name\'s, also when it expands to nothing) and on tokens that are passed on, collected or spliced unchanged. '
+                       'Not decided: that no adjacent pair of spellings fuses.')
     rep.assumptions += ['tokenize() gives the first token of a buffer at_bol=true/has_space=false (checked on the empty buffer and by the fresh-token wiring obligations)',
-                        'loops over token lists are analysed for 0..2 generic iterations', 'clang 14 typed AST']
+                        'loops over token lists are analysed for 0..2 generic iterations (print_tokens: 0..3)', 'clang 14 typed AST']
     def part(rule, name, f):
         try:
             return f()
